@@ -330,6 +330,7 @@ def _execute(scenario: dict) -> dict:
     touched_classes: set[str] = set()
     touched_docs: set[str] = set()
     nontrivial = False
+    own_errors: dict[str, list] = {}
     try:
         world.w.set_parse_cache_size(scenario.get("knobs", {}).get("parse_cache"), world.unavailable)
         if scenario.get("knobs", {}).get("parse_cache") is not None:
@@ -366,6 +367,7 @@ def _execute(scenario: dict) -> dict:
                     if ff["swapped"]:
                         probes["raised_while_class_templates_swapped"] = probes.get("raised_while_class_templates_swapped", 0) + 1
                 b.set_faults([])
+                own_errors.setdefault(op["backend"], []).extend(r.get("errors", []))
                 oc = _outcome_class(r)
                 if "exc" in r or r.get("errors"):
                     msg = (r.get("msg") or "") + " ".join(e.get("msg", "") for e in r.get("errors", []))
@@ -434,6 +436,7 @@ def _execute(scenario: dict) -> dict:
                         or _shares(scenario, op["doc"], touched_docs)):
                     nontrivial = True
                 got = world.convert(b, [scenario["documents"][op["doc"]]], op["via"], op["format"])
+                own_errors.setdefault(op["backend"], []).extend(got.get("errors", []))
                 want = fresh[i]
                 oc = _outcome_class(got)
                 log.append({"op": i, "got": got, "want": want})
@@ -447,6 +450,15 @@ def _execute(scenario: dict) -> dict:
                             if world.sb.PRISTINE_SNAPSHOT[c][a] != v} for c, attrs in snap.items()}
                 violation = {"oracle": "class-settings-restored", "kind": "class-attribute-changed",
                              "step": i, "got": {c: d for c, d in diff.items() if d}, "want": "pristine"}
+            # a backend's error list holds exactly the records of its own conversions
+            if violation is None:
+                for bid, b2 in world.backends.items():
+                    have = world.w.errors_record(b2.errors)
+                    if have != own_errors.get(bid, []):
+                        violation = {"oracle": "backend-errors-are-its-own", "kind": "foreign-or-missing-records",
+                                     "step": i, "got": {"backend": bid, "errors": have},
+                                     "want": {"backend": bid, "errors": own_errors.get(bid, [])}}
+                        break
             if violation is not None:
                 break
     finally:
